@@ -64,6 +64,8 @@ def _corr_chunk(args):
             if isinstance(e, KeyboardInterrupt):
                 raise
             d = [{"layer": "L4", "text": text, "what": "exception in the implementation: {}: {}".format(tl.classify_exc(e), str(e)[:200]), "forms": forms}]
+            if isinstance(e, tl.Timeout):
+                d = []
             st = {"pairs": 0, "equations_evaluated": 0, "horizons": 0}
         for k in st:
             tot[k] = tot.get(k, 0) + st[k]
